@@ -37,11 +37,38 @@ def _extract_model(ctx, fq: str) -> T.Dict[str, T.Any]:
     ('replace', old, new) and ('sub', regex, replacement).  Loops over folded tables are unrolled, guards are
     constant-folded per iteration.  Anything else is outside the model (ANALYSIS-ERROR)."""
     prog = ctx.prog
-    fn = prog.function(fq)
+    merged_slice = None
+    if not prog.has_function(fq):
+        # the compiler function was merged into its caller: the pipeline is the run of statements of the one function of the module
+        # that walks RE_PATTERN_ESCAPES, from the statement that hands the normalised text to the loop up to the re.compile call
+        modname = fq.split(".")[0]
+        hosts = [f_ for f_ in prog.module(modname).functions.values()
+                 if any(isinstance(l_, ast.For) and unparse(l_.iter) == "RE_PATTERN_ESCAPES" for l_ in walk_no_nested(f_.node))
+                 and any(isinstance(c_, ast.Call) and unparse(c_.func) == "re.compile" for c_ in walk_no_nested(f_.node))]
+        if len(hosts) != 1:
+            raise AnalysisError(f"anchor function vanished: {fq}")
+        fn = hosts[0]
+        body_ = [st for st in fn.node.body if not (isinstance(st, ast.Expr) and isinstance(st.value, ast.Constant))]
+        first = next(i_ for i_, st in enumerate(body_) if isinstance(st, ast.For) and unparse(st.iter) == "RE_PATTERN_ESCAPES")
+        last = next(i_ for i_, st in enumerate(body_) if any(isinstance(c_, ast.Call) and unparse(c_.func) == "re.compile" for c_ in ast.walk(st)))
+        loop_vars = {t_.id for a_ in ast.walk(body_[first]) if isinstance(a_, ast.Assign) for t_ in a_.targets if isinstance(t_, ast.Name)}
+        root = None
+        if first > 0 and isinstance(body_[first - 1], (ast.Assign, ast.AnnAssign)) and isinstance(body_[first - 1].value, ast.Name):
+            tgt0 = body_[first - 1].targets[0] if isinstance(body_[first - 1], ast.Assign) else body_[first - 1].target
+            if isinstance(tgt0, ast.Name) and tgt0.id in loop_vars:
+                root, first = body_[first - 1].value.id, first - 1
+        if root is None and len(loop_vars) == 1:
+            root = next(iter(loop_vars))
+        if root is None or last < first:
+            raise AnalysisError(f"anchor function vanished: {fq} (merged into {fn.fq}, pipeline not delimited)")
+        merged_slice = (body_[first:last + 1], root)
+        fq = fn.fq
+    else:
+        fn = prog.function(fq)
     ctx.visit(fq)
     mod = fn.module
     steps: T.List[T.Tuple[str, str, str]] = []
-    running = {fn.params[0]}
+    running = {fn.params[0]} if merged_slice is None else {merged_slice[1]}
     info: T.Dict[str, T.Any] = {"table_loops": [], "exempt": set(), "final": None, "flags": False, "compile": None, "fn": fn}
 
     def fold(e: ast.AST, env: T.Dict[str, T.Any]) -> T.Any:
@@ -90,6 +117,9 @@ def _extract_model(ctx, fq: str) -> T.Dict[str, T.Any]:
                     continue
                 if isinstance(val, ast.Call) and unparse(val.func) == "_replace_pattern_parts" and len(val.args) == 1 and isinstance(val.args[0], ast.Name) and val.args[0].id in running:
                     info["final"] = tgt.id
+                    continue
+                if merged_slice is not None and isinstance(val, ast.Call) and unparse(val.func) == "re.compile":
+                    run([ast.copy_location(ast.Return(value=val), st)], env)          # `regexp = re.compile(...)` ends the merged pipeline
                     continue
                 try:
                     env[tgt.id] = fold(val, env)
@@ -142,7 +172,7 @@ def _extract_model(ctx, fq: str) -> T.Dict[str, T.Any]:
                 continue
             raise AnalysisError(f"{fq}: statement `{unparse(st)[:70]}` is outside the escaping model")
 
-    body = [st for st in fn.node.body if not (isinstance(st, ast.Expr) and isinstance(st.value, ast.Constant))]
+    body = [st for st in fn.node.body if not (isinstance(st, ast.Expr) and isinstance(st.value, ast.Constant))] if merged_slice is None else merged_slice[0]
     run(body, {})
     ctx.require(info["final"] is not None and info["compile"] is not None, f"{fq}: escaped text does not reach _replace_pattern_parts / re.compile")
     info["steps"] = steps
